@@ -135,7 +135,12 @@ def scenario(c, inst):
                 return v[0]
             return c.array(v).reshape(shape)
 
-        itp = CubicHermiteInterp(t0, t1, pack(P(t0)), pack(P(t1)), pack(dP(t0)), pack(dP(t1)))
+        data = [pack(P(t0)), pack(P(t1)), pack(dP(t0)), pack(dP(t1))]
+        itp = CubicHermiteInterp(t0, t1, *data)
+        if shape:
+            # the caller re-uses its work arrays afterwards (in-place writes): the piece keeps the data it was built from
+            for arr in data:
+                arr[...] = 0 * arr + 7
 
         def flat(v):
             return list(np.asarray(v, dtype=object).reshape(-1)) if c.symbolic else list(np.asarray(v).reshape(-1))
